@@ -22,8 +22,12 @@ hc = os.path.join(HERE, "tools", "hook_commits.txt")
 if os.path.exists(hc):
     hook_commits = [l.split()[0] for l in open(hc) if l.strip()]
 
-BASE_OFF = ("for m in . cmd/atlas internal/integration; do (cd /repo/$m && GIT_CONFIG_GLOBAL=/dev/null GOFLAGS=-mod=mod GOPROXY=off "
-            "go test -vet=off -count=1 -timeout 25m ./...) || exit 1; done")
+# internal/integration's main package needs live MySQL / PostgreSQL servers (it fails in TestMain on the unchanged tree as well and none of its
+# tests is part of the pinned suite): its offline parts are the hclsqlspec package and the SQLite tests
+BASE_OFF = ("for m in . cmd/atlas; do (cd /repo/$m && GIT_CONFIG_GLOBAL=/dev/null GOFLAGS=-mod=mod GOPROXY=off "
+            "go test -vet=off -count=1 -timeout 25m ./...) || exit 1; done; "
+            "(cd /repo/internal/integration && GOFLAGS=-mod=mod GOPROXY=off go test -vet=off -count=1 ./hclsqlspec/... && "
+            "GOFLAGS=-mod=mod GOPROXY=off go test -vet=off -count=1 -run TestSQLite .)")
 m = {
     "version": 1,
     "setup_cmd": "./check --setup",
